@@ -228,6 +228,63 @@ Definition quote : ascii := """"%char.
 Definition plainb (c : ascii) : bool :=
   negb ((c =? quote)%char || (c =? "\")%char || (c =? nul)%char || (c =? nl)%char).
 
+(** *** The encoder: the text [IH5UserBlock.json()] produces
+
+    pydantic prints the fields in declaration order with the default separators of
+    [json.dumps] ([", "] and [": "]): [record_uuid], [patch_index], [patch_uuid],
+    [prev_patch], [hdf5_hashsum], [ub_exts]; the manifest extension
+    [IH5UBExtManifest.dict()] as [is_stub_container], [manifest_uuid],
+    [manifest_hashsum].  A text is assembled from pieces: literal text, the body of a
+    string value ([TS]: UUIDs, hashsums) and a number ([TD]). *)
+Inductive titem : Type := TL (l : bytes) | TS (h : bytes) | TD (h : bytes).
+
+Definition tflat (it : titem) : bytes := match it with TL l | TS l | TD l => l end.
+Definition flat (l : list titem) : bytes := List.concat (map tflat l).
+
+Record ubhead : Type := MkHead {
+  t_rec : bytes;               (* record_uuid *)
+  t_idx : N;                   (* patch_index *)
+  t_pid : bytes;               (* patch_uuid *)
+  t_prev : option bytes        (* prev_patch *)
+}.
+
+Definition opt_tpl (o : option bytes) : list titem :=
+  match o with
+  | None => [TL (B "null")]
+  | Some b => [TL [quote]; TS b; TL [quote]]
+  end.
+
+Definition pre_tpl (u : ubhead) : list titem :=
+  [TL (B "{""record_uuid"": """); TS (t_rec u); TL (B """, ""patch_index"": ");
+   TD (B (string_of_N (t_idx u))); TL (B ", ""patch_uuid"": """); TS (t_pid u);
+   TL (B """, ""prev_patch"": ")] ++ opt_tpl (t_prev u) ++ [TL (B ", ""hdf5_hashsum"": ")].
+
+Definition ext_tpl (e : option (bool * bytes * bytes)) : list titem :=
+  match e with
+  | None => [TL (B "{}")]
+  | Some (s, i, h) =>
+      [TL (B "{""ih5mf_v01"": {""is_stub_container"": "); TL (B (if s then "true" else "false"));
+       TL (B ", ""manifest_uuid"": """); TS i; TL (B """, ""manifest_hashsum"": """); TS h;
+       TL (B """}}")]
+  end.
+
+(** Everything after the hashsum value but the closing brace of the object. *)
+Definition rest_tpl (e : option (bool * bytes * bytes)) : list titem :=
+  TL (B ", ""ub_exts"": ") :: ext_tpl e.
+
+Definition rbrace : ascii := "}"%char.
+
+Definition enc_pre (u : ubhead) : bytes := flat (pre_tpl u).
+Definition enc_rest (e : option (bool * bytes * bytes)) : bytes := flat (rest_tpl e) ++ [rbrace].
+
+Definition encode_ub (u : ubhead) (h : option bytes) (e : option (bool * bytes * bytes)) : bytes :=
+  enc_pre u ++ flat (opt_tpl h) ++ enc_rest e.
+
+(** Characters that may occur in a number. *)
+Definition inertb (c : ascii) : bool :=
+  plainb c && negb (is_ws c || (c =? "{")%char || (c =? "[")%char || (c =? "}")%char
+                    || (c =? "]")%char || (c =? ":")%char).
+
 (** ** B. Directory, micro-steps, histories *)
 
 Record entry : Type := MkEntry {
@@ -285,6 +342,7 @@ Fixpoint states (d : dir) (l : list mstep) : list dir :=
 (** One round [create_patch; writes...; commit_patch].  The lists of torn user blocks are
     part of the round: what the block loads as after 1, 2, ... bytes of the write. *)
 Record round : Type := MkRound {
+  r_rid : N;                          (* the fresh record_uuid (used by a base round only) *)
   r_pid : N;                          (* the fresh patch_uuid *)
   r_d0 : N;                           (* payload digest of an empty container *)
   r_tears1 : list (option ublock);    (* torn states of the first user-block write *)
@@ -308,7 +366,16 @@ Definition commit_ub (mfm : bool) (u : ublock) (r : round) : ublock :=
   MkUb (rec_id u) (idx u) (pid u) (prev u) (Some (r_dfin r))
        (if mfm then Some (MkExt false (r_mfid r) (r_mfhash r)) else None).
 
-Definition round_u0 (C : list file) (r : round) : ublock := new_ub (ub (lastf C)) (r_pid r).
+(** [IH5UserBlock.create(None)]: the user block of a base container. *)
+Definition base_ub (r : round) : ublock := MkUb (r_rid r) 0 (r_pid r) None None None.
+
+(** The first user block of the round's container: a base container when nothing is
+    committed yet ([IH5Record(path, "w")] = [_create]), otherwise a patch on the newest. *)
+Definition round_u0 (C : list file) (r : round) : ublock :=
+  match C with
+  | [] => base_ub r
+  | _ :: _ => new_ub (ub (lastf C)) (r_pid r)
+  end.
 Definition round_u1 (mfm : bool) (C : list file) (r : round) : ublock :=
   commit_ub mfm (round_u0 C r) r.
 
@@ -372,6 +439,9 @@ Definition crash_state (mfm : bool) (C : list file) (rs : list round) (n : nat) 
 Definition good (mfm : bool) (C : list file) : Prop :=
   chain_ok mfm false C /\ Forall intact C /\ (mfm = true -> Forall mf_ok C).
 
+(** ... or no record at all: the first round then creates the base container. *)
+Definition good0 (mfm : bool) (C : list file) : Prop := C = [] \/ good mfm C.
+
 (** Torn states: each loads as what was there, as what is being written, or not at all. *)
 Definition tears_ok (o : option ublock) (n : ublock) (l : list (option ublock)) : Prop :=
   Forall (fun x => x = o \/ x = None \/ x = Some n) l.
@@ -400,7 +470,9 @@ Definition tears_of (parse : bytes -> option ublock) (old new : bytes) : list (o
       [o n x u]; [tight]: every strict prefix of the new text fails [json_nec];
       [prefix-state]: the scan state after the longest common prefix of both texts is
       "outside strings, just after a colon" (the hypothesis of [torn_between]).
-    - [(hist mfm (file ...) (round ...))] with [round = (pid d0 (t...) (w...) dfin (t...)
+    - [(enc rec idx pid (prev?) (hash?) (ext?))], [ext = (stub id hash)]: the text of
+      [encode_ub], to be compared byte for byte with the real block.
+    - [(hist mfm (file ...) (round ...))] with [round = (rid pid d0 (t...) (w...) dfin (t...)
       mfid mfhash ((id dig)...))], [t] in [o x n]: for every prefix of the micro-steps
       [(class nfiles ncommitted (ub dig mf))]: class [refused] / [uncommitted] /
       [committed] of [open_dir], the length of the opened chain, the length of
@@ -454,18 +526,18 @@ Definition sx_tear (o : option ublock) (n : ublock) (x : sx) : option (option ub
 (** A round needs the committed containers below it to decode its tear lists. *)
 Definition sx_round (mfm : bool) (C : list file) (x : sx) : option round :=
   match x with
-  | L [p; d0; t1; ws; df; t2; mi; mh; parts] =>
-      match sx_N p, sx_N d0, sx_map sx_N ws, sx_N df, sx_N mi, sx_N mh,
+  | L [ri; p; d0; t1; ws; df; t2; mi; mh; parts] =>
+      match sx_N ri, sx_N p, sx_N d0, sx_map sx_N ws, sx_N df, sx_N mi, sx_N mh,
             sx_map (sx_pair sx_N sx_N) parts with
-      | Some p, Some d0, Some ws, Some df, Some mi, Some mh, Some parts =>
-          let r0 := MkRound p d0 [] ws df [] mi mh parts in
+      | Some ri, Some p, Some d0, Some ws, Some df, Some mi, Some mh, Some parts =>
+          let r0 := MkRound ri p d0 [] ws df [] mi mh parts in
           let u0 := round_u0 C r0 in
           let u1 := round_u1 mfm C r0 in
           match sx_map (sx_tear None u0) t1, sx_map (sx_tear (Some u0) u1) t2 with
-          | Some t1, Some t2 => Some (MkRound p d0 t1 ws df t2 mi mh parts)
+          | Some t1, Some t2 => Some (MkRound ri p d0 t1 ws df t2 mi mh parts)
           | _, _ => None
           end
-      | _, _, _, _, _, _, _ => None
+      | _, _, _, _, _, _, _, _ => None
       end
   | _ => None
   end.
@@ -509,6 +581,18 @@ Definition run_c11 (x : sx) : sx :=
       match sx_bytes o, sx_bytes n with
       | Some o, Some n => run_torn o n
       | _, _ => sx_bad "c11 torn"
+      end
+  | L [A "enc"; A rc; ix; A pd; pv; hs; ex] =>
+      match sx_N ix, sx_opt sx_atom pv, sx_opt sx_atom hs,
+            sx_opt (fun x => match x with
+                             | L [s; A i; A h] =>
+                                 match sx_bool s with Some s => Some (s, B i, B h) | None => None end
+                             | _ => None
+                             end) ex with
+      | Some ix, Some pv, Some hs, Some ex =>
+          A (string_of_list_ascii
+               (encode_ub (MkHead (B rc) ix (B pd) (option_map B pv)) (option_map B hs) ex))
+      | _, _, _, _ => sx_bad "c11 enc"
       end
   | L [A "hist"; m; fs; L rl] =>
       match sx_bool m, sx_map sx_file fs with
